@@ -12,11 +12,11 @@ import (
 
 // Program is the loaded repository: packages, SSA (naive form) and sizes.
 type Program struct {
-	Pkgs  []*packages.Package
-	SSA   *ssa.Program
+	Pkgs   []*packages.Package
+	SSA    *ssa.Program
 	ByPath map[string]*ssa.Package
-	Sizes types.Sizes
-	Dir   string
+	Sizes  types.Sizes
+	Dir    string
 }
 
 // RepoDir is the repository under verification.
